@@ -310,6 +310,7 @@ pub fn run(ctx: &Ctx) -> Report {
     let shards = 16usize;
     let random = run_shards(shards, |shard| {
         let mut st = Stats::new();
+        poison_parses(40);
         let tree = crate::gen::expr_over(crate::gen::c01_leaf(), 8, 40, true);
         let near = (tree.clone(), proptest::collection::vec(any::<u16>(), 0..60), proptest::collection::vec((0u8..3, any::<u16>(), any::<u16>()), 0..3))
             .prop_map(|(tree, choices, edits)| NearCase { tree, choices, edits });
@@ -393,7 +394,7 @@ pub fn run(ctx: &Ctx) -> Report {
         let v = judge_words(&ws);
         st.record(&v, stable_hash(&ws), true, || words_json(&ws));
     }
-    for n in [10usize, 100, 127, 128, 129, 255, 256, 257, 400, 1000, 2047, 2048, 2049, 2500] {
+    for n in [10usize, 100, 127, 128, 129, 255, 256, 257, 400, 1000, 2047, 2048, 2049, 2500, 4096, 4097, 5000] {
         for op in [Some(W::And(false)), Some(W::And(true)), None, Some(W::Or(false)), Some(W::Or(true)), Some(W::Comma)] {
             let mut ws = vec![t()];
             for i in 0..n {
@@ -404,6 +405,35 @@ pub fn run(ctx: &Ctx) -> Report {
             }
             let v = judge_words(&ws);
             st.record(&v, stable_hash(&ws), true, || json!({"kind": "words", "text": format!("chain of {n} operands"), "words": ws.iter().map(word_text).collect::<Vec<_>>()}));
+        }
+    }
+    // a parenthesised group after n flat terms, and n groups side by side
+    for n in [10usize, 127, 128, 129, 130, 255, 256, 257, 300, 1000] {
+        for op in [Some(W::Or(false)), Some(W::And(false)), None, Some(W::Comma)] {
+            let mut ws = vec![t()];
+            for _ in 1..n {
+                if let Some(o) = &op {
+                    ws.push(o.clone());
+                }
+                ws.push(t());
+            }
+            if let Some(o) = &op {
+                ws.push(o.clone());
+            }
+            ws.extend([W::LP, W::Prim(E::A(Act::Print)), W::RP]);
+            let v = judge_words(&ws);
+            st.record(&v, stable_hash(&ws), true, || json!({"kind": "words", "text": format!("{n} terms then a group"), "words": ws.iter().map(word_text).collect::<Vec<_>>()}));
+            let mut ws = vec![];
+            for i in 0..n {
+                if i > 0 {
+                    if let Some(o) = &op {
+                        ws.push(o.clone());
+                    }
+                }
+                ws.extend([W::LP, t(), W::RP]);
+            }
+            let v = judge_words(&ws);
+            st.record(&v, stable_hash(&ws), true, || json!({"kind": "words", "text": format!("{n} groups side by side"), "words": ws.iter().map(word_text).collect::<Vec<_>>()}));
         }
     }
     st
